@@ -1791,9 +1791,10 @@ pub fn codegen(
             // Did we have the exact same errors in the previous pass? Then we need to bail. Unless symbols are still moving,
             // since an error may be caused by a value that is not final yet (e.g. the start of a segment that depends on
             // other segments, which takes a pass per dependency to settle).
+            // (And passes that keep failing, each in a different way, shouldn't go on forever either.)
             if !errors.is_empty()
-                && errors == prev_errors
-                && (ctx.changed.is_empty() || ctx.pass_idx >= MAX_UNSTABLE_PASSES)
+                && ((errors == prev_errors && ctx.changed.is_empty())
+                    || ctx.pass_idx >= MAX_UNSTABLE_PASSES)
             {
                 return (Some(ctx), errors);
             }
@@ -1837,7 +1838,7 @@ pub fn codegen(
                     prev_undefined = std::mem::take(&mut ctx.undefined);
                 } else {
                     // If the same symbols are undefined that were undefined in the previous pass, they are truly undefined.
-                    if ctx.undefined == prev_undefined {
+                    if ctx.undefined == prev_undefined || ctx.pass_idx >= MAX_UNSTABLE_PASSES {
                         let errors = ctx
                             .undefined
                             .iter()
